@@ -293,6 +293,21 @@ class C05(Prop):
                 op['props']['options'] = {
                     rng.choice(['graceful_timeout', 'warmup_delay']):
                     rng.choice(['@nan', '@nan', -1, -0.5])}
+        if rng.random() < 0.08:
+            # the wall clock is stepped while operations run: how long they
+            # take does not depend on it
+            out = []
+            for op in ops:
+                out.append(op)
+                if op['op'] == 'req' and op['cmd'] in (
+                        'stop', 'restart', 'kill', 'decr', 'reload', 'set',
+                        'incr', 'start'):
+                    out.append({'op': 'clockjump',
+                                'delta': rng.choice([-20.0, -3.0, -3.0,
+                                                     3600.0, 2.0]),
+                                'place': {'dt': rng.choice(
+                                    [0.01, 0.04, 0.12, 0.3, 0.6])}})
+            ops[:] = out
         if rng.random() < 0.05:
             # a worker whose main thread exits while its other threads go
             # on: a zombie for /proc and psutil, not yet for waitpid()
